@@ -136,12 +136,49 @@ fn cbor_headers(b: &[u8]) -> Vec<(usize, u8, usize, u64)> {
     out
 }
 
+/// end offset of the item that starts at p
+fn cbor_item_end(b: &[u8], p: usize, scratch: &mut Vec<(usize, u8, usize, u64)>) -> Option<usize> {
+    let all = cbor_headers(b);
+    let _ = scratch;
+    // walk again from p: the header list is in document order, so the end of the item at p is the start of the next
+    // header that is not nested inside it; recompute directly instead
+    fn end(b: &[u8], p: usize, depth: usize) -> Option<usize> {
+        if depth > 64 || p >= b.len() {
+            return None;
+        }
+        let (major, ai) = (b[p] >> 5, b[p] & 31);
+        let (hl, arg) = match ai {
+            0..=23 => (1usize, u64::from(ai)),
+            24 => (2, u64::from(*b.get(p + 1)?)),
+            25 => (3, u64::from(u16::from_be_bytes([*b.get(p + 1)?, *b.get(p + 2)?]))),
+            26 => (5, u64::from(u32::from_be_bytes(b.get(p + 1..p + 5)?.try_into().ok()?))),
+            27 => (9, u64::from_be_bytes(b.get(p + 1..p + 9)?.try_into().ok()?)),
+            _ => return None,
+        };
+        let mut q = p + hl;
+        match major {
+            2 | 3 => Some(q + arg as usize),
+            4 | 5 => {
+                for _ in 0..(if major == 4 { arg } else { 2 * arg }) {
+                    q = end(b, q, depth + 1)?;
+                }
+                Some(q)
+            }
+            6 => end(b, q, depth + 1),
+            _ => Some(q),
+        }
+    }
+    let _ = all;
+    end(b, p, 0)
+}
+
 fn declared(arg: &str, actual: u64) -> u64 {
     match arg {
         "plus1" => actual + 1,
         "minus1" => actual.saturating_sub(1),
         "zero" => 0,
         "2^16" => 1 << 16,
+        "2^28" => 1 << 28,
         "2^31" => 1 << 31,
         "2^32" => 1 << 32,
         "2^40" => 1 << 40,
@@ -267,6 +304,35 @@ fn mutate(dec: &str, m: &str, arg: &str, base: &[u8], rng: &mut rand::rngs::StdR
                 }
                 b
             }
+        }
+        "bigseq" => {
+            // arg = "<present>:<declared>": a byte string or list member re-encoded as a definite-length array that
+            // declares <declared> elements and really carries <present> well-formed ones (enough to run past any cap on
+            // the initial capacity), then ends
+            let (present, decl) = arg.split_once(':').unwrap();
+            let present: usize = present.parse().unwrap();
+            let hs: Vec<_> = cbor_headers(&b).into_iter().filter(|h| matches!(h.1, 2 | 4) && h.0 > 0).collect();
+            if let Some(&(off, major, hl, actual)) = hs.choose(rng) {
+                let d = declared(decl, actual);
+                let mut v = b[..off].to_vec();
+                v.push((4 << 5) | 27);
+                v.extend_from_slice(&d.to_be_bytes());
+                if major == 2 || actual == 0 {
+                    v.extend((0..present).map(|i| (i % 24) as u8));
+                } else {
+                    // repeat the list's own first element
+                    let mut scratch = vec![];
+                    let end = cbor_item_end(&b, off + hl, &mut scratch).unwrap_or(b.len()).min(b.len());
+                    let first = b[off + hl..end].to_vec();
+                    // keep the input within a few hundred kB, but always past 4 096 elements when asked to
+                    let present = present.min((300_000 / first.len().max(1)).max(4100));
+                    for _ in 0..present {
+                        v.extend_from_slice(&first);
+                    }
+                }
+                return v;
+            }
+            b
         }
         // ---- hid packet sequences
         "shortpacket" => {
@@ -410,6 +476,8 @@ fn gen(args: &Args) {
     let mut id = 0u64;
     for c in &cases {
         let (dec, m, arg) = (c["dec"].as_str().unwrap(), c["mut"].as_str().unwrap(), c["arg"].as_str().unwrap());
+        // the large inputs of the bigseq family are concretised fewer times
+        let reps = if m == "bigseq" { (reps / 8).max(3) } else { reps };
         for _ in 0..reps {
             let base = valid(dec, &mut rng);
             let input = mutate(dec, m, arg, &base, &mut rng);
